@@ -32,7 +32,7 @@ ASSUMPTIONS = [
 FLOORS = {
     'quick': {'programs': 6000, 'both_accepted': 12000, 'setting:ignorecase': 1200, 'setting:nameguard_off': 1200,
               'setting:whitespace': 1200, 'setting:parseinfo': 1200, 'sem:tagging': 2000, 'sem:identity': 2000,
-              'kwlike_names': 400, 'pyconst_tokens': 400, 'long_names': 600, 'includes_or_based_rules': 500, 'reused_instance_parses': 20000, 'with_params': 400, 'with_directives': 1200, 'assoc_joins': 150},
+              'kwlike_names': 400, 'pyconst_tokens': 400, 'long_names': 600, 'includes_or_based_rules': 500, 'reused_instance_parses': 20000, 'with_params': 400, 'with_directives': 1200, 'assoc_joins': 150, 'underscored_names': 400},
     'thorough': {'programs': 100000, 'both_accepted': 200000},
 }
 N = {'quick': 9600, 'thorough': 160000}
@@ -49,6 +49,7 @@ HOSTILE_PATS = {
     'a\tb': ['a\tb'],                # a literal tab in the pattern
     "\\\\'\"": ["\\'\""],             # a backslash before both kinds of quotes (not writable as a raw string)
 }
+UNDERSCORED = ['_Ident', '__Tok', '_lower', 'Up_', '__x', '_A1', 'lo_Up', '_9z', '___', '_Start']
 KWLIKE = ['if', 'class', 'print', 'match', 'type', '_', 'def', 'None_', 'list', 'self']
 
 
@@ -109,6 +110,12 @@ def gen_case(rng):
         mapping = dict(zip(names, new))
         g = rename(g, mapping)
         features.add('kwlike_names')
+    elif rng.random() < 0.2:
+        # leading underscores: whether a rule is a token rule (no whitespace skipped before it) is decided on the name
+        # without them, by the model from the grammar's name and by the generated parser from the method's name
+        names = [r.name for r in g.rules]
+        g = rename(g, dict(zip(names, rng.sample(UNDERSCORED, len(names)))))
+        features.add('underscored_names')
     if rng.random() < 0.2:
         r = rng.choice(g.rules)
         r.params = tuple(rng.sample(['A', 'b', 1], rng.choice([1, 2])))
